@@ -118,6 +118,8 @@ def patterns_for(shape, which):
         if rank >= 2:
             # physical axes listed in another order than the virtual axes (what .T / permute of a PatternedTensor give)
             out.append(('transposed', lambda off: PatternedTensor(base(off).permute(*rev).contiguous()).permute(rev)))
+        # a view into a larger buffer: non-zero storage offset
+        out.append(('sliced', lambda off: PatternedTensor(torch.cat([torch.full((3,), -7., dtype=torch.float64), base(off).reshape(-1)])[3:].reshape(shape))))
         if shape[-1] > 1:
             out.append(('stride0-last', lambda off: PatternedTensor(base(off)[..., 0:1].expand(shape))))
         if rank >= 2 and shape[0] > 1:
@@ -151,6 +153,11 @@ def patterns_for(shape, which):
                 k = PhysicalAxis(shape[0])
                 return PatternedTensor(base(off).diagonal().clone(), (k,), (k, k), 0.)
             out.append(('diag', diag))
+
+            def diag5(off):
+                k = PhysicalAxis(shape[0])
+                return PatternedTensor(base(off).diagonal().clone(), (k,), (k, k), 5.)
+            out.append(('diag-default5', diag5))
         if rank == 3 and shape[0] == shape[1] == shape[2] and shape[0] > 1:
             def diag3(off):
                 k, m = PhysicalAxis(shape[0]), PhysicalAxis(shape[0])
@@ -177,7 +184,7 @@ def patterns_for(shape, which):
         return [x for x in out if x[0] in ('dense', 'stride0-all', 'diag')][:3]
     if which == 'few3':
         return [x for x in out if x[0] in ('dense', 'diag', 'diag-last-two', 'stride0-all', 'onehot', 'transposed')]
-    return [x for x in out if x[0] in ('dense', 'stride0-all', 'diag', 'onehot', 'onehot0', 'permuted', 'transposed')]
+    return [x for x in out if x[0] in ('dense', 'stride0-all', 'diag', 'diag-default5', 'onehot', 'onehot0', 'permuted', 'transposed', 'sliced')]
 
 
 def restride(ph, f, grad):
